@@ -1,76 +1,74 @@
 (* C22 -- a ReplaySubject replays exactly its retained values, in order.
-   Model: Subjects/Replay.v (ReplaySubject + ScheduledObserver + the FIFO of a
-   virtual-time scheduler drained after every top-level call + the
-   AutoDetachObserver wrapper), tied to reactivex/subject/replaysubject.py and
-   reactivex/observer/scheduledobserver.py by the K1 correspondence of
-   harness/props/C22.py. *)
+   Model: Subjects/ReplaySched.v -- ReplaySubject + ScheduledObserver + scheduler
+   queue (items, ids, cancellation) + the AutoDetachObserver wrapper, in BOTH
+   scheduler modes:
+     sync = false  a virtual-time scheduler whose clock the history controls,
+                   drained by the driver after every top-level call;
+     sync = true   the DEFAULT CurrentThreadScheduler (trampoline): a drain
+                   scheduled from a top-level call runs inline, inside the call
+                   and BETWEEN the per-observer steps of one emission; one
+                   scheduled from inside an observer callback is queued behind
+                   the running drain; top-level subscribe() is itself a
+                   trampoline action.
+   Tied to reactivex/subject/replaysubject.py, observer/scheduledobserver.py and
+   scheduler/trampoline*.py by the K1 correspondence of harness/props/C22.py in
+   both modes.  (Subjects/Replay.v is the earlier virtual-time-only engine; its
+   lemmas are reused.) *)
 From RxVerif Require Import Base.Prelude Ops.Machine Subjects.Subject Subjects.Family Subjects.Replay
-  Subjects.ReplaySpec Subjects.SubjectFacts Subjects.ReplayFacts Subjects.ReplayTreeFacts
-  Subjects.ReplayLiveFacts.
+  Subjects.ReplaySpec Subjects.ReplaySched Subjects.SubjectFacts Subjects.ReplayFacts Subjects.ReplayTreeFacts
+  Subjects.ReplayLiveFacts Subjects.ReplaySchedFacts.
 
-(* ---- the main statement, for ARBITRARY call trees (observers that subscribe,
-        unsubscribe, emit, dispose from inside their callbacks, also while other
-        observers still have notifications queued), every buffer size (None, 0,
-        1, ...), every window, every amount of fuel ----
+(* ---- the main statements: for BOTH scheduler modes, ARBITRARY call trees
+        (observers that subscribe, unsubscribe, emit, complete, dispose from
+        inside their callbacks -- in sync mode re-entrantly, while the emission
+        that called them is still half-way through its observers), every buffer
+        size (None, 0, 1, ...), every window, every amount of fuel ----
 
    [xview b w o false rg_init calls] is what observer o is entitled to, computed
    from the sequence of calls alone (Subjects/ReplaySpec.v): nothing before its
-   subscribe call; at that call the RETAINED values -- [retained]: the last
-   buffer_size values whose age at subscription is <= window -- in order, then
-   the terminal notification if the subject had ended (only DisposedException
-   after dispose()); afterwards the notification of every emission that takes
-   effect, in call order.
+   subscribe call; at that call the RETAINED values -- the last buffer_size values
+   whose age at subscription is <= window -- in order, then the terminal
+   notification if the subject had ended (only DisposedException after
+   dispose()); afterwards the notification of every emission that takes effect,
+   in the order the calls were MADE (a call made from inside a callback counts
+   where it is made).
 
-   What o has received at any moment is a PREFIX of it: the replay comes first
-   and is exactly the retained values in order, then the terminal, then the
-   later notifications -- nothing duplicated, nothing reordered, nothing invented. *)
+   What o has received at any moment is a PREFIX of it: per-subscriber order =
+   the subject's retained order; nothing duplicated, reordered or invented. *)
 Theorem C22_received_is_prefix_of_replay_then_later :
-  forall (A : Type) (react : nat -> nat -> list (@rop A)) (bs w : option Z) (top : list (@rop A))
-         (fuel o : nat),
-    let c := rrun react fuel (rinit_cfg bs w top) in
-    prefix (rview o (rlog_of c)) (xview (bufsize_of bs) w o false rg_init (ops_of (rlog_of c))).
-Proof. exact (@replay_prefix). Qed.
+  forall (A : Type) (sync : bool) (react : nat -> nat -> list (@rop A)) (bs w : option Z)
+         (top : list (@rop A)) (fuel o : nat),
+    let c := srun sync react fuel (sinit_cfg sync bs w top) in
+    prefix (rview o (slog_of c)) (xview (bufsize_of bs) w o false rg_init (ops_of (slog_of c))).
+Proof. exact (@sched_prefix). Qed.
 Print Assumptions C22_received_is_prefix_of_replay_then_later.
 
-(* Nothing is lost: as long as the observer's AutoDetachObserver is not stopped
-   (it has neither unsubscribed nor received a terminal notification), what it
-   has received ++ what was handed to its wrapper but is not processed yet ++ what
-   is still queued in its ScheduledObserver  IS  its whole entitlement -- on every
-   call tree, at every moment. *)
+(* Nothing is lost: as long as the observer's AutoDetachObserver is not stopped,
+   received ++ handed to the wrapper ++ queued in its ScheduledObserver ++ the
+   terminal the running on_error/on_completed loop is about to queue  IS  its
+   whole entitlement -- at every moment, also in the middle of an emission. *)
 Theorem C22_nothing_lost :
-  forall (A : Type) (react : nat -> nat -> list (@rop A)) (bs w : option Z) (top : list (@rop A))
-         (fuel o : nat) (os : @rostate A),
-    let c := rrun react fuel (rinit_cfg bs w top) in
-    rc_obs c o = Some os -> ra_stopped os = false ->
-    rview o (rlog_of c) ++ inflight o (rc_k c) ++ so_queue (r_so os)
-    = xview (bufsize_of bs) w o false rg_init (ops_of (rlog_of c)).
-Proof. exact (@replay_nothing_lost). Qed.
+  forall (A : Type) (sync : bool) (react : nat -> nat -> list (@rop A)) (bs w : option Z)
+         (top : list (@rop A)) (fuel o : nat) (os : @rostate A),
+    let c := srun sync react fuel (sinit_cfg sync bs w top) in
+    sc_obs c o = Some os -> ra_stopped os = false ->
+    rview o (slog_of c) ++ sinflight o (sc_k c) ++ so_queue (r_so os) ++ spend o (sc_k c)
+    = xview (bufsize_of bs) w o false rg_init (ops_of (slog_of c)).
+Proof. exact (@sched_nothing_lost). Qed.
 Print Assumptions C22_nothing_lost.
 
-Theorem C22_live_observer_stays_registered :
-  forall (A : Type) (react : nat -> nat -> list (@rop A)) (bs w : option Z) (top : list (@rop A))
-         (fuel o : nat) (os : @rostate A),
-    let c := rrun react fuel (rinit_cfg bs w top) in
-    rc_obs c o = Some os -> ra_stopped os = false ->
-    rg_live (rg_run rg_init (ops_of (rlog_of c))) = true ->
-    In o (r_observers (rc_st c)) /\ so_stopped (r_so os) = false.
-Proof. exact (@replay_live_registered). Qed.
-Print Assumptions C22_live_observer_stays_registered.
-
-(* Completeness (no lost wake-up of ScheduledObserver.ensure_active / run): when a
-   run has finished -- every top-level call made, the scheduler drained after
-   each -- an observer that has not unsubscribed (its wrapper is still live, or it
-   was stopped by a terminal notification) has received EXACTLY its entitlement:
-   all retained values in order, the terminal if any, and EVERY later
-   notification.  Again for arbitrary call trees, buffer sizes and windows. *)
+(* Completeness (no lost wake-up of ScheduledObserver.ensure_active / run, in
+   either mode): when a run has finished, an observer that has not unsubscribed
+   (its wrapper is still live, or it was stopped by a terminal notification) has
+   received EXACTLY its entitlement. *)
 Theorem C22_finished_run_delivers_everything :
-  forall (A : Type) (react : nat -> nat -> list (@rop A)) (bs w : option Z) (top : list (@rop A))
-         (fuel o : nat) (os : @rostate A),
-    let c := rrun react fuel (rinit_cfg bs w top) in
-    rc_k c = [] -> rc_obs c o = Some os ->
-    (ra_stopped os = false \/ has_term (rview o (rlog_of c)) = true) ->
-    rview o (rlog_of c) = xview (bufsize_of bs) w o false rg_init (ops_of (rlog_of c)).
-Proof. exact (@replay_complete). Qed.
+  forall (A : Type) (sync : bool) (react : nat -> nat -> list (@rop A)) (bs w : option Z)
+         (top : list (@rop A)) (fuel o : nat) (os : @rostate A),
+    let c := srun sync react fuel (sinit_cfg sync bs w top) in
+    sc_k c = [] -> sc_obs c o = Some os ->
+    (ra_stopped os = false \/ has_term (rview o (slog_of c)) = true) ->
+    rview o (slog_of c) = xview (bufsize_of bs) w o false rg_init (ops_of (slog_of c)).
+Proof. exact (@sched_complete). Qed.
 Print Assumptions C22_finished_run_delivers_everything.
 
 (* ---- the retention policy: the code keeps a queue that it trims (by count,
@@ -110,68 +108,84 @@ Theorem C22_policy_replay_is_retained :
 Proof. exact (@qinv_replay). Qed.
 Print Assumptions C22_policy_replay_is_retained.
 
-(* ---- further facts on arbitrary call trees ---- *)
+(* ---- further facts, both modes, arbitrary call trees ---- *)
 
 (* each observer's received sequence obeys the grammar *)
 Theorem C22_views_wellformed :
-  forall (A : Type) (react : nat -> nat -> list (@rop A)) (bs w : option Z) (top : list (@rop A)) (fuel o : nat),
-    wellformed (rview o (rlog_of (rrun react fuel (rinit_cfg bs w top)))) = true.
-Proof. exact (@rviews_wellformed). Qed.
+  forall (A : Type) (sync : bool) (react : nat -> nat -> list (@rop A)) (bs w : option Z)
+         (top : list (@rop A)) (fuel o : nat),
+    wellformed (rview o (slog_of (srun sync react fuel (sinit_cfg sync bs w top)))) = true.
+Proof. exact (@sched_wellformed). Qed.
 Print Assumptions C22_views_wellformed.
 
 (* unsubscribing takes effect at once: what is still queued in the observer's
    ScheduledObserver or scheduled on the scheduler is never delivered *)
 Theorem C22_unsubscribed_gets_nothing_more :
-  forall (A : Type) (react : nat -> nat -> list (@rop A)) s m k l o os n,
+  forall (A : Type) (sync : bool) (react : nat -> nat -> list (@rop A)) top s m k l o os n,
     m o = Some os -> r_handle os = true ->
-    rview o (rlog_of (rrun react n (RCfg s m (RIOp (RUnsub o) :: k) l))) = rview o (rev l).
-Proof. exact (@runsubscribed_gets_nothing_more). Qed.
+    rview o (slog_of (srun sync react n (SCfg s m (SIOp top (RUnsub o) :: k) l))) = rview o (rev l).
+Proof. exact (@sunsubscribed_gets_nothing_more). Qed.
 Print Assumptions C22_unsubscribed_gets_nothing_more.
 
-Theorem C22_nothing_after_terminal :
-  forall (A : Type) (react : nat -> nat -> list (@rop A)) c o,
-    rwf_inv c -> has_term (rview o (rlog_of c)) = true ->
-    forall n, rview o (rlog_of (rrun react n c)) = rview o (rlog_of c).
-Proof. exact (@rafter_terminal_nothing). Qed.
-Print Assumptions C22_nothing_after_terminal.
+Theorem C22_stopped_wrapper_never_delivers :
+  forall (A : Type) (sync : bool) (react : nat -> nat -> list (@rop A)) n c o os,
+    sc_obs c o = Some os -> ra_stopped os = true ->
+    rview o (slog_of (srun sync react n c)) = rview o (slog_of c).
+Proof. exact (@sstopped_final). Qed.
+Print Assumptions C22_stopped_wrapper_never_delivers.
 
 (* ---- witnesses (pool ids; clock in ticks) ---- *)
-(* buffer 2, window 2: values at t=0,1,1; subscriber at t=3 gets the last two
+(* virtual time; buffer 2, window 2: values at t=0,1,1; subscriber at t=3 gets the last two
    whose age (2) equals the window -- retained; at t=4 (age 3) nothing *)
 Example C22_witness_window_boundary :
-  run_rhistory (Some 2) (Some 2) 1000
+  run_shistory false (Some 2) (Some 2) 1000
     ([RNext 0; RAdvance 1; RNext 1; RNext 2; RAdvance 2; RSub 0%nat; RAdvance 1; RSub 1%nat; RNext 3], [])
   = ([REOp (RNext 0); REOp (RAdvance 1); REOp (RNext 1); REOp (RNext 2); REOp (RAdvance 2);
       REOp (RSub 0%nat); REGot 0%nat (Next 1); REGot 0%nat (Next 2); REOp (RAdvance 1); REOp (RSub 1%nat);
       REOp (RNext 3); REGot 0%nat (Next 3); REGot 1%nat (Next 3)], true).
 Proof. vm_compute. reflexivity. Qed.
 
-(* buffer_size 0 retains nothing; the terminal is still replayed *)
+(* buffer_size 0 retains nothing; the terminal is still replayed (default scheduler) *)
 Example C22_witness_buffer_zero :
-  run_rhistory (Some 0) None 1000 ([RNext 0; RNext 1; RDone; RSub 0%nat], [])
+  run_shistory true (Some 0) None 1000 ([RNext 0; RNext 1; RDone; RSub 0%nat], [])
   = ([REOp (RNext 0); REOp (RNext 1); REOp RDone; REOp (RSub 0%nat); REGot 0%nat Done], true).
 Proof. vm_compute. reflexivity. Qed.
 
-(* re-entrancy: observer 0 emits from inside its callback while observer 1 still
-   has the first value queued: nobody sees the values reordered *)
-Example C22_witness_reentrant :
-  run_rhistory None None 1000 ([RSub 0%nat; RSub 1%nat; RNext 5], [(0%nat, [[RNext 6]])])
+(* re-entrancy on the DEFAULT scheduler: observer 0 emits 6 from inside its callback for 5
+   while the emission of 5 has not yet reached observer 1's ensure_active.  Because
+   _on_next_core queues 5 on EVERY ScheduledObserver before it activates any of them,
+   observer 1 still sees 5 before 6.  (Merging the two loops of _on_next_core gives
+   observer 1 the sequence 6, 5: the seeded change C22-replay-single-loop.) *)
+Example C22_witness_reentrant_default_scheduler :
+  run_shistory true None None 1000 ([RSub 0%nat; RSub 1%nat; RNext 5], [(0%nat, [[RNext 6]])])
   = ([REOp (RSub 0%nat); REOp (RSub 1%nat); REOp (RNext 5); REGot 0%nat (Next 5); REOp (RNext 6);
       REGot 1%nat (Next 5); REGot 0%nat (Next 6); REGot 1%nat (Next 6)], true).
 Proof. vm_compute. reflexivity. Qed.
 
-(* the entitlement of the boundary witness, computed by the specification alone:
-   subscriber 0 (t=3): values of t=1 (age 2 = window) ; subscriber 1 (t=4): nothing retained *)
+(* the same tree on the virtual-time scheduler *)
+Example C22_witness_reentrant_virtual_time :
+  run_shistory false None None 1000 ([RSub 0%nat; RSub 1%nat; RNext 5], [(0%nat, [[RNext 6]])])
+  = ([REOp (RSub 0%nat); REOp (RSub 1%nat); REOp (RNext 5); REGot 0%nat (Next 5); REOp (RNext 6);
+      REGot 1%nat (Next 5); REGot 0%nat (Next 6); REGot 1%nat (Next 6)], true).
+Proof. vm_compute. reflexivity. Qed.
+
+(* completion from inside a callback on the default scheduler: nobody loses the value *)
+Example C22_witness_reentrant_completion :
+  run_shistory true None None 1000 ([RSub 0%nat; RSub 1%nat; RNext 5], [(0%nat, [[RDone]])])
+  = ([REOp (RSub 0%nat); REOp (RSub 1%nat); REOp (RNext 5); REGot 0%nat (Next 5); REOp RDone;
+      REGot 1%nat (Next 5); REGot 0%nat Done; REGot 1%nat Done], true).
+Proof. vm_compute. reflexivity. Qed.
+
+(* the entitlement of the boundary witness, computed by the specification alone *)
 Example C22_witness_spec :
   let calls := [RNext 0; RAdvance 1; RNext 1; RNext 2; RAdvance 2; RSub 0%nat; RAdvance 1; RSub 1%nat; RNext 3] in
   xview 2 (Some 2) 0%nat false rg_init calls = [Next 1; Next 2; Next 3] /\
   xview 2 (Some 2) 1%nat false rg_init calls = [Next 3].
 Proof. vm_compute. split; reflexivity. Qed.
 
-(* the hypotheses of the completeness theorem are satisfiable: the re-entrant
-   witness run has finished and both observers' wrappers are still live *)
+(* the hypotheses of the completeness theorem are satisfiable (default scheduler) *)
 Example C22_witness_finished :
-  let c := rrun (rreact_tbl [(0%nat, [[RNext 6]])]) 1000 (rinit_cfg None None [RSub 0%nat; RSub 1%nat; RNext 5]) in
-  rc_k c = [] /\ (exists os, rc_obs c 1%nat = Some os /\ ra_stopped os = false) /\
-  rview 1%nat (rlog_of c) = [Next 5; Next 6].
+  let c := srun true (rreact_tbl [(0%nat, [[RNext 6]])]) 1000 (sinit_cfg true None None [RSub 0%nat; RSub 1%nat; RNext 5]) in
+  sc_k c = [] /\ (exists os, sc_obs c 1%nat = Some os /\ ra_stopped os = false) /\
+  rview 1%nat (slog_of c) = [Next 5; Next 6].
 Proof. vm_compute. split; [reflexivity|]. split; [eexists; split; reflexivity|reflexivity]. Qed.
